@@ -63,8 +63,11 @@ def run(ctx, replay_ops=None):
         e["VERIF_REPLAY"] = rp
     rc, out = ctx.go_test(PKG, TEST, env=e, timeout=3000)
     opsf, implf = os.path.join(ctx.work, NAME + ".ops"), os.path.join(ctx.work, NAME + ".impl")
-    if rc != 0 or not os.path.exists(opsf):
+    if not os.path.exists(opsf):
         ctx.tie_failures.append("harness %s %s failed to run (rc=%d): %s" % (PKG, TEST, rc, out[-600:]))
+        return
+    if rc != 0 and not any(l.startswith("FAILED") for l in ctx.read_lines(implf)):
+        ctx.tie_failures.append("harness %s %s failed (rc=%d): %s" % (PKG, TEST, rc, out[-600:]))
         return
     mf = os.path.join(ctx.work, NAME + ".model.out")
     if ctx.driver("c1416", [], opsf, mf, timeout=3000) != 0:
@@ -91,7 +94,11 @@ def run(ctx, replay_ops=None):
                 dist["case:clash"] = dist.get("case:clash", 0) + 1
             continue
         if a.startswith("FAILED"):
-            ctx.tie_failures.append("harness case failed: %s (%s)" % (case, a))
+            if k == "run" and len(op.split()) > 2:
+                ctx.violation("a real ledger returned an error while processing the history under this schedule (%s): %s" % (op.split(" ev=")[0], a[:300]),
+                              {"kind": "ledger-failure", "ops": [case], "run": op[:800], "impl_out": a[:2000], "harness": HARNESS}, found_input=True)
+            else:
+                ctx.tie_failures.append("harness case failed: %s (%s)" % (case, a))
             continue
         replay = {"kind": "correspondence", "ops": [case], "line": op[:600], "impl_out": a[:2000], "model_out": b[:2000], "harness": HARNESS}
         if a != b and reported < 4:
